@@ -14,6 +14,9 @@ structure Cfg where
   r : R.Cfg := {}
   p : P.Cfg := {}
 
+/-- The sender reads the same `c.cancelMode` as the waiter. -/
+def Cfg.pc (cfg : Cfg) : P.Cfg := { cfg.p with cancelMode := cfg.r.cancelMode }
+
 structure State where
   r : R.State := {}
   p : P.State := {}
@@ -36,7 +39,7 @@ def step (cfg : Cfg) (st : State) (ev : Ev) : Option State :=
   if st.r.crashed.isSome || st.p.crashed.isSome then none else
   match ev with
   | .r e => (R.step cfg.r st.r e).map fun r' => { r := r', p := { st.p with sendClosed := r'.sendClosed } }
-  | .p e => if allowed st e then (P.step cfg.p st.p e).map fun p' => { st with p := p' } else none
+  | .p e => if allowed st e then (P.step cfg.pc st.p e).map fun p' => { st with p := p' } else none
 
 def steps (cfg : Cfg) (st : State) : List Ev → Option State
   | [] => some st
@@ -80,7 +83,7 @@ theorem r_reachable (cfg : Cfg) (st : State) (h : Reachable cfg st) : R.Reachabl
 
 /-- A property of the sender system that does not look at `sendClosed` carries over to `RP`. -/
 theorem p_invariant (cfg : Cfg) (I : P.State → Prop) (h0 : I {})
-    (hs : ∀ st ev st', I st → P.step cfg.p st ev = some st' → I st')
+    (hs : ∀ st ev st', I st → P.step cfg.pc st ev = some st' → I st')
     (hc : ∀ st b, I st → I { st with sendClosed := b }) (st : State) (h : Reachable cfg st) : I st.p := by
   refine reachable_invariant cfg (fun st => I st.p) h0 ?_ st h
   intro st ev st' hi hst
@@ -100,19 +103,20 @@ theorem p_invariant (cfg : Cfg) (I : P.State → Prop) (h0 : I {})
       exact hs _ _ _ hi hp'
     · simp at hst
 
-theorem sender_shape (cfg : Cfg) (st : State) (h : Reachable cfg st) (g : Nat) : P.Shape cfg.p st.p g :=
-  p_invariant cfg (fun s => P.Shape cfg.p s g) ⟨0, by simp [P.sendsOf]⟩
-    (fun s ev s' hi hs => P.shape_step cfg.p s ev s' g hi hs) (fun _ _ hi => hi) st h
+theorem sender_shape (cfg : Cfg) (st : State) (h : Reachable cfg st) (g : Nat) : P.Shape cfg.pc st.p g :=
+  p_invariant cfg (fun s => P.Shape cfg.pc s g) ⟨0, by simp [P.sendsOf]⟩
+    (fun s ev s' hi hs => P.shape_step cfg.pc s ev s' g hi hs) (fun _ _ hi => hi) st h
 
 theorem sender_cancel_mode (cfg : Cfg) (st : State) (h : Reachable cfg st) :
-    ∀ q ∈ P.cancelsOf st.p.out, q.2 = cfg.p.senderCancelMode :=
-  p_invariant cfg (fun s => ∀ q ∈ P.cancelsOf s.out, q.2 = cfg.p.senderCancelMode)
-    (by intro q hq; simp [P.cancelsOf] at hq) (P.cancel_mode_step cfg.p) (fun _ _ hi => hi) st h
+    ∀ q ∈ P.cancelsOf st.p.out, q.2 = cfg.pc.senderCancelMode :=
+  p_invariant cfg (fun s => ∀ q ∈ P.cancelsOf s.out, q.2 = cfg.pc.senderCancelMode)
+    (by intro q hq; simp [P.cancelsOf] at hq) (P.cancel_mode_step cfg.pc) (fun _ _ hi => hi) st h
 
 /-! ### witnesses -/
 
 /-- A progressive call whose context ends while `sendProg` (which honours it) waits for the next
-    chunk: the waiter sends CANCEL with the configured mode, the sender CANCEL with KillNoWait. -/
+    chunk: the waiter sends CANCEL and so does the sender — two CANCELs for one request, both with
+    the configured mode (before fix 4f8171f the sender's said KillNoWait). -/
 def doubleCancel : List Ev :=
   [.r (.apiStart 1 .call "p" false), .p (.spawn 1 1 "p" false), .r (.apiWait 1),
    .r (.ctxEnd 1 .canceled), .r (.noticeCtx 1), .p (.pulled 1 (.err true)), .p (.sendDone 1)]
@@ -128,5 +132,10 @@ def senderAfterClose : List Ev :=
   senderOutlivesCall ++
   [.p (.pulled 1 (.chunk true)), .r .closeStart, .r (.inject (.goodbye [] "wamp.close.goodbye_and_out")), .r .runRecv,
    .r .closeSeeDone, .r .closeWorkersDone, .p (.sendDone 1)]
+
+/-- The final chunk of a progressive call whose options leave `progress` unset. -/
+def unsetProgress : List Ev :=
+  [.r (.apiStart 1 .call "p" false), .p (.spawn 1 1 "p" false), .r (.apiWait 1),
+   .p (.pulled 1 (.chunk true)), .p (.sendDone 1), .p (.pulled 1 .noFlag), .p (.sendDone 1)]
 
 end Nexus.Client.RP
